@@ -554,6 +554,7 @@ pub fn likely_search() -> Option<(Vec<u8>, String)> {
 
 // ------------------------------------------------------------------------------------------------ super (C13)
 pub fn super_check(v: &[u8]) -> Option<String> {
+    if v.starts_with(b"raw:") { return super_raw().map(|(_, d)| d); }
     let li = LanguageIdentifier::from_bytes(v);
     let lo = std::panic::catch_unwind(|| Locale::from_bytes(v));
     let lo = match lo { Ok(x) => x, Err(_) => return Some(format!("Locale::from_bytes(b\"{}\") PANICKED", crate::esc(v))) };
@@ -589,7 +590,28 @@ pub fn super_check(v: &[u8]) -> Option<String> {
     None
 }
 /// bound: heads (en, und, EN, e, root, abcde, abcdef, abcdefg, abcdefgh, Qwerty) x <= 3 subtags of the boundary-class alphabet
+/// the conversions are the identity on EVERY representable identifier, also one assembled with the (safe) raw constructor
+fn super_raw() -> Option<(Vec<u8>, String)> {
+    let mk = |variants: Option<Box<[Variant]>>| LanguageIdentifier::from_raw_parts_unchecked("en".parse().unwrap(), None, Some("US".parse().unwrap()), variants);
+    let v = |s: &str| -> Variant { s.parse().unwrap() };
+    let cases: Vec<(&str, LanguageIdentifier)> = vec![
+        ("en-US with variants Some([])", mk(Some(Box::new([])))),
+        ("en-US with variants None", mk(None)),
+        ("en-US with variants Some([valencia, macos]) (unsorted)", mk(Some(Box::new([v("valencia"), v("macos")])))),
+        ("en-US with variants Some([macos, macos]) (duplicate)", mk(Some(Box::new([v("macos"), v("macos")])))),
+    ];
+    for (what, l) in cases {
+        let as_loc: Locale = l.clone().into();
+        if !as_loc.extensions.is_empty() || as_loc.id != l { return Some((format!("raw:{}", what).into_bytes(), format!("Locale::from(id) does not carry the identical id for {} (from_raw_parts_unchecked)", what))); }
+        let r: &LanguageIdentifier = as_loc.as_ref();
+        if *r != l { return Some((format!("raw:{}", what).into_bytes(), format!("Locale::as_ref() is not the id for {}", what))); }
+        let back: LanguageIdentifier = as_loc.into();
+        if back != l { return Some((format!("raw:{}", what).into_bytes(), format!("LanguageIdentifier -> Locale -> LanguageIdentifier is not the identity on {}", what))); }
+    }
+    None
+}
 pub fn super_search() -> Option<(Vec<u8>, String)> {
+    if let Some(f) = super_raw() { return Some(f); }
     let a = crate::reference::alphabet();
     let heads: Vec<&[u8]> = vec![b"en", b"und", b"EN", b"e", b"root", b"abcde", b"abcdef", b"abcdefg", b"abcdefgh", b"Qwerty", b"abcd", b"abcdefghi"];
     let mut buf: Vec<u8> = vec![];
